@@ -1489,7 +1489,7 @@ class Pregex():
                 return _Type.Token, True
 
         # Simplify classes by removing extra characters.
-        pattern = _re.sub(r"\[.+?(?<!\\)\]", "[a]", pattern, flags=__class__.__flags)
+        pattern = _re.sub(r"(?<!\\)\[.+?(?<!\\)\]", "[a]", pattern, flags=__class__.__flags)
 
         if pattern == "[a]":
             return _Type.Class, True
